@@ -15,10 +15,14 @@
       (C01 for `L'` + the embedding), hence no genuine countermodel can be read off any `L`-branch;
     * `C11_extension_prop` — propositional fragment: truth-table valid in `L'` implies truth-table
       valid in `L` (so, with C03's oracle, the `L` verdict must be 'valid').
-  NOT YET A THEOREM (named `_partial` accordingly): the step from "no countermodel exists in `L`" to
-  "the `L` tableau has no limit-free open branch / closes" is C02's Hintikka lemma (C03's
-  completeness half on the propositional fragment).  That step is covered by the correspondence:
-  the same arguments are run in both logics of every declared pair and the verdicts compared.
+    * `C11_extension_prop_closed`, and with the Hintikka lemma (C02)
+      `C11_extension_no_refutation(_fo)_partial` — a closed `L'`-tableau and a SATURATED open branch
+      of any `L`-derivation for the same argument exclude each other (propositional + modal
+      branches; first-order branches for the logics with weights for every rule row).
+  `_partial`: branches with Identity / Existence are outside the Hintikka lemma, and "a completed
+  tableau's open branches are saturated" is a property of the search (checked on every real run by
+  the driver).  Both are covered by the correspondence: the same arguments are run in both logics
+  of every declared pair and the verdicts compared.
 -/
 import Ptx.Proofs.Embed
 import Ptx.Props.C03
